@@ -292,8 +292,8 @@ inductive FEv
 structure FSt where
   idx : Int
   value : Val                    -- the cache entry of the float parameter (what `read` replies)
-  idxErr : Bool := false         -- `readerror` of the index parameter is set
-  valErr : Bool := false         -- `readerror` of the float parameter is set
+  idxErr : Bool := false         -- the next update of the index cannot be omitted: `readerror` is set or it was never announced
+  valErr : Bool := false         -- the same for the float parameter
   evs : List FEv := []
   ok : Bool := true
   exc : Option ExcKind := none
@@ -525,6 +525,7 @@ structure LCfg where
   hi : Val
   layers : List Layer            -- the classes of the module class in MRO order (most derived first)
   hasW : Bool                    -- the programmer wrote write_<p>
+  omitUnch : Bool := false       -- `omit_unchanged_within`: 0 (false) or longer than the whole history (true)
   deriving Repr, DecidableEq
 
 /-- `<p>_min in accessibles`: some class of the hierarchy declares it -/
@@ -544,6 +545,10 @@ structure LSt where
   min : Val
   max : Val
   limits : Val × Val
+  vErr : Bool := false           -- the next update of <p> cannot be omitted: `readerror` is set or it was never announced
+  minErr : Bool := false
+  maxErr : Bool := false
+  limErr : Bool := false
   evs : List LEv := []
   ok : Bool := true
   exc : Option ExcKind := none
@@ -558,8 +563,27 @@ def checkLimits (cfg : LCfg) (s : LSt) (x : Val) : Bool :=
   && (!cfg.hasMin || decide (s.min ≤ x))
   && (!cfg.hasMax || decide (x ≤ s.max))
 
-def lemit (s : LSt) (e : LEv) : LSt := { s with evs := s.evs ++ [e], ok := true }
 def lfail (s : LSt) : LSt := { s with ok := false }
+
+/-- `announceUpdate` of an unchanged value without a pending error while the window is open: nothing stored, no message -/
+def omittedL (cfg : LCfg) (same err : Bool) : Bool := cfg.omitUnch && same && !err
+
+/-- `announceUpdate(<p>, x)` and the same for the limit parameters (no callbacks are registered on them) -/
+def setValue (cfg : LCfg) (x : Val) (s : LSt) : LSt :=
+  if omittedL cfg (s.value == x) s.vErr then { s with ok := true }
+  else { s with value := x, vErr := false, evs := s.evs ++ [.value x], ok := true }
+
+def setMin (cfg : LCfg) (x : Val) (s : LSt) : LSt :=
+  if omittedL cfg (s.min == x) s.minErr then { s with ok := true }
+  else { s with min := x, minErr := false, evs := s.evs ++ [.min x], ok := true }
+
+def setMax (cfg : LCfg) (x : Val) (s : LSt) : LSt :=
+  if omittedL cfg (s.max == x) s.maxErr then { s with ok := true }
+  else { s with max := x, maxErr := false, evs := s.evs ++ [.max x], ok := true }
+
+def setLimits (cfg : LCfg) (a b : Val) (s : LSt) : LSt :=
+  if omittedL cfg (s.limits == (a, b)) s.limErr then { s with ok := true }
+  else { s with limits := (a, b), limErr := false, evs := s.evs ++ [.limits a b], ok := true }
 
 /-- class `l`, followed in the MRO by the classes `rest`, is the class where one of the limit parameters is defined
 first (`next(b for b in reversed(cls.__mro__) if limname in b.__dict__)`) -/
@@ -611,28 +635,30 @@ def lstep (cfg : LCfg) (s : LSt) : LOp → LSt
     else if cfg.hasW then
       match w with
       | .fail k => { s with ok := false, exc := some k }
-      | .retNone => lemit { s with value := x } (.value x)
-      | .ret y => if inRange cfg y then lemit { s with value := y } (.value y) else lfail s
-    else lemit { s with value := x } (.value x)
-  | .writeMin x => if cfg.hasMin && inRange cfg x then lemit { s with min := x } (.min x) else lfail s
-  | .writeMax x => if cfg.hasMax && inRange cfg x then lemit { s with max := x } (.max x) else lfail s
+      | .retNone => setValue cfg x s
+      | .ret y => if inRange cfg y then setValue cfg y s else lfail s
+    else setValue cfg x s
+  | .writeMin x => if cfg.hasMin && inRange cfg x then setMin cfg x s else lfail s
+  | .writeMax x => if cfg.hasMax && inRange cfg x then setMax cfg x s else lfail s
   | .writeLimits a b =>
-    if cfg.hasLimits && validLimits cfg a b then lemit { s with limits := (a, b) } (.limits a b) else lfail s
+    if cfg.hasLimits && validLimits cfg a b then setLimits cfg a b s else lfail s
   -- driver-side assignments: `announceUpdate` converts (`datatype(value)`), it does not check ranges or the order
-  | .driverAssign x => lemit { s with value := x } (.value x)
+  | .driverAssign x => setValue cfg x s
   | .driverAssignMin x =>
-    if cfg.hasMin then lemit { s with min := x } (.min x) else lfail s
+    if cfg.hasMin then setMin cfg x s else lfail s
   | .driverAssignMax x =>
-    if cfg.hasMax then lemit { s with max := x } (.max x) else lfail s
+    if cfg.hasMax then setMax cfg x s else lfail s
   | .driverAssignLimits a b =>
-    if cfg.hasLimits then lemit { s with limits := (a, b) } (.limits a b) else lfail s
+    if cfg.hasLimits then setLimits cfg a b s else lfail s
 
 def lstep1 (cfg : LCfg) (s : LSt) (op : LOp) : LSt := lstep cfg { s with evs := [], exc := none } op
 def lrun (cfg : LCfg) (s : LSt) (ops : List LOp) : List LSt := Frappy.Scan.scan (lstep1 cfg) s ops
 def lexec (cfg : LCfg) (s : LSt) (ops : List LOp) : LSt := ops.foldl (lstep1 cfg) s
 
 /-- defaults of the limit parameters: the range of the datatype (`Limit.set_datatype`) -/
-def linit (cfg : LCfg) (v : Val) : LSt :=
-  { value := v, min := cfg.lo, max := cfg.hi, limits := (cfg.lo, cfg.hi) }
+def linit (cfg : LCfg) (v : Val) (vErr : Bool := false) (minErr : Bool := false) (maxErr : Bool := false)
+    (limErr : Bool := false) : LSt :=
+  { value := v, min := cfg.lo, max := cfg.hi, limits := (cfg.lo, cfg.hi), vErr := vErr, minErr := minErr, maxErr := maxErr,
+    limErr := limErr }
 
 end Frappy.ExtParams
